@@ -264,7 +264,13 @@ func pointArc(x, a, b, n hv, nn *big.Float) peRes {
 	da := x.Sub(a).Norm2()
 	db := x.Sub(b).Norm2()
 	r := peRes{d2: hp.Min(da, db), cosp: 1}
-	if nn.Sign() == 0 {
+	// An arc shorter than 1e-40 is treated as a point pair: the wedge test below
+	// subtracts quantities that agree to |a×b| relative, and the 320-bit oracle
+	// arithmetic (96 digits) has nothing left for arcs around 1e-97 (first full
+	// thorough run at seed 1: an edge of 4.5e-97 rad with a denormal coordinate was
+	// "interior" by noise). The distance differs from the endpoint distance by less
+	// than the arc length.
+	if nn.Sign() == 0 || hp.Float(nn) < 1e-40 {
 		return r
 	}
 	w1 := hp.Quo(a.Cross(x).Dot(n), nn)
@@ -399,7 +405,7 @@ func edgeQuad(q quad, a, b hv, insideA, insideB bool) ecRes {
 		r.class = "endpoint-inside"
 		return r
 	}
-	if !nab.IsZero() {
+	if !nab.IsZero() && hp.Float(nnab) >= 1e-40 {
 		for k := 0; k < 4; k++ {
 			if arcsMeet(a, b, nab, q.c[k], q.c[(k+1)&3], q.n[k]) {
 				r.class = "crossing"
